@@ -7,6 +7,8 @@
 (*                       stores the meta-entity through core.Dataset)      *)
 (*   transaction on S  : lock the members of S in some order ; commit ;    *)
 (*                       then bump one counter per member (lock core ...)  *)
+(*   compactor on d    : lock d ; plan and flush ; unlock d  (fix 48437af; *)
+(*                       it writes no counter)                             *)
 (* AsCoded = TRUE  : members locked in ANY order (Go map iteration), the   *)
 (*                   counters are bumped while the member locks are held   *)
 (* AsCoded = FALSE : members locked in name order with core.Dataset last,  *)
@@ -16,7 +18,7 @@
 EXTENDS Integers, Sequences, FiniteSets, TLC
 
 CONSTANTS Procs,     \* set of process ids
-          Kind,      \* [Procs -> "w" | "t"]
+          Kind,      \* [Procs -> "w" | "t" | "c"]   (batch writer, transaction, compactor)
           Targets,   \* [Procs -> tuple of lock names]; writers: one name; transactions: members in NAME ORDER, core last
           AsCoded
 
@@ -36,7 +38,7 @@ Init ==
   /\ pc = [p \in Procs |-> "acquire"]
   /\ todo \in [Procs -> UNION { Perms(Targets[p]) : p \in Procs }]
   /\ \A p \in Procs : todo[p] \in (IF AsCoded /\ Kind[p] = "t" THEN Perms(Targets[p]) ELSE {Targets[p]})
-  /\ bumps = [p \in Procs |-> Len(Targets[p])]
+  /\ bumps = [p \in Procs |-> IF Kind[p] = "c" THEN 0 ELSE Len(Targets[p])]
 
 Held(p) == { l \in LockNames : owner[l] = p }
 
